@@ -46,8 +46,11 @@ def run_query(obs, qu, vega=None):
         if qu.get('vega') is not None:
             kw['vegaspec'] = vega if vega is not None else O.build_prim(qu['vega'])
         return guarded(lambda: obs.effstim(unit_obj(qu['unit_name']), **kw).value)
+    kw = {}
+    if qu.get('wl') is not None:
+        kw['wavelengths'] = wl_arg(qu)
     return guarded(lambda: obs.effective_wavelength(binned=qu['binned'],
-                                                    mode='efflerg' if qu['erg'] else 'efflphot').value)
+                                                    mode='efflerg' if qu['erg'] else 'efflphot', **kw).value)
 
 
 def efflam_parts(obs, qu):
@@ -57,10 +60,51 @@ def efflam_parts(obs, qu):
     if qu['binned']:
         x = obs.binset.value
         y = obs.sample_binned(flux_unit=fu).value
+    elif qu.get('wl') is not None:
+        x = wl_angstrom(qu)
+        y = obs(x, flux_unit=fu).value
     else:
         x = obs.waveset.value
         y = obs(x, flux_unit=fu).value
     return float(trapezoid(y * x ** 2, x=x)), float(trapezoid(y * x, x=x))
+
+
+def build_objects(case, scale=None):
+    """(source, bandpass, observation): the observation is built on exactly these two objects"""
+    from synphot import Observation
+    src = O.build_prim(case['src'])
+    if scale is not None:
+        src = src * scale
+    band = O.build_prim(case['band'])
+    kw = {'force': case.get('force') or 'none'}
+    if case.get('binset') is not None:
+        kw['binset'] = np.array([O.fl(x) for x in case['binset']])
+    return src, band, Observation(src, band, **kw)
+
+
+def run_history(case, src, band, obs):
+    """earlier calls on the SAME objects; their results are not part of the outcome (a correct implementation's
+    answer to the measured request does not depend on them)"""
+    from synphot import Observation
+    for h in case.get('history') or []:
+        k = h['h']
+        if k == 'effstim':
+            guarded(lambda: obs.effstim(unit_obj(h['unit_name']), wavelengths=wl_arg(h)))
+        elif k == 'efflam':
+            guarded(lambda: obs.effective_wavelength(binned=False, wavelengths=wl_arg(h), mode='efflerg' if h.get('erg', True) else 'efflphot'))
+        elif k == 'sample_src':
+            guarded(lambda: src(wl_arg(h)))
+        elif k == 'sample_obs':
+            guarded(lambda: obs(wl_arg(h), flux_unit=h.get('unit_name', 'flam')))
+        elif k == 'countrate':
+            guarded(lambda: obs.countrate(1.0, binned=False, wavelengths=wl_arg(h)))
+        elif k == 'obs2':
+            def g():
+                o2 = Observation(src, O.build_prim(h['band2']), force='extrap')
+                if h.get('what') == 'efflam':
+                    return o2.effective_wavelength(binned=False)
+                return o2.effstim(unit_obj(h['unit_name']))
+            guarded(g)
 
 
 def impl_call(case):
@@ -68,13 +112,16 @@ def impl_call(case):
     from scipy.integrate import trapezoid
 
     def f():
-        outs = []
         extra = {}
         with conf.set_temp('default_integrator', case.get('integrator', 'trapezoid')):
-            obs = c08.build_obs(case)
-            for qu in case['queries']:
-                outs.append(run_query(obs, qu))
-            # oracle data (implementation alone)
+            src, band, obs = build_objects(case)
+            run_history(case, src, band, obs)
+            outs = [run_query(obs, qu) for qu in case['queries']]
+            # the measured calls once more, on the same objects: must be bit-identical
+            extra['repeat'] = [run_query(obs, qu) for qu in case['queries']]
+            warned = 'PartialOverlap' in obs.warnings
+            # oracle data (implementation alone), on a fresh observation of the same description
+            obs = build_objects(case)[2]
             w = obs.waveset.value
             flam = obs(w, flux_unit='flam').value
             bw = obs.bandpass.waveset
@@ -87,6 +134,8 @@ def impl_call(case):
             extra['nonneg'] = bool(np.all(flam >= 0)) and bool(np.all(obs.binflux.value >= 0))
             extra['efflam_parts'] = [guarded(lambda: efflam_parts(obs, qu)) if qu['q'] == 'efflam' else None
                                      for qu in case['queries']]
+            extra['efflam_nonneg'] = [guarded(lambda: bool(np.all(obs(wl_angstrom(qu)).value >= 0)))
+                                      if qu['q'] == 'efflam' and qu.get('wl') is not None else None for qu in case['queries']]
             # explicit sampling wavelengths: the defining integrals and the pivot on those wavelengths
             xw = []
             for qu in case['queries']:
@@ -110,15 +159,15 @@ def impl_call(case):
             extra['on_grid'] = xw
         other = 'analytical' if case.get('integrator', 'trapezoid') == 'trapezoid' else 'trapezoid'
         with conf.set_temp('default_integrator', other):
-            obs2 = c08.build_obs(case)
+            obs2 = build_objects(case)[2]
             extra['other_integrator'] = [run_query(obs2, qu) if qu.get('area') is None else None for qu in case['queries']]
             extra['other_pivot'] = guarded(lambda: float(obs2.bandpass.pivot().value))
         if case.get('k') is not None:
             k = O.fl(case['k'])
-            obs3 = c08.build_obs(case, scale=k)
+            obs3 = build_objects(case, scale=k)[2]
             extra['scaled'] = [run_query(obs3, qu) if qu.get('area') is None and qu.get('vega') is None else None
                                for qu in case['queries']]
-        return {'warned': 'PartialOverlap' in obs.warnings, 'queries': outs, '_x': extra}
+        return {'warned': warned, 'queries': outs, '_x': extra}
     return guarded(f)
 
 
@@ -133,7 +182,8 @@ def model_case(case):
             qs_.append({'q': 'effstim', 'unit': O.model_flux_unit(qu['unit_name']), 'wl': wl, 'area': qu.get('area'),
                         'vega': qu.get('vega')})
         else:
-            qs_.append({'q': 'efflam', 'binned': qu['binned'], 'wl': None, 'erg': qu['erg']})
+            qs_.append({'q': 'efflam', 'binned': qu['binned'], 'wl': None if qu.get('wl') is None else qs(wl_angstrom(qu)),
+                        'erg': qu['erg']})
     c['queries'] = qs_
     return c
 
@@ -183,6 +233,11 @@ def oracle(rep, case, out):
     flat = flat_expect(case)
     kk = O.fl(case['k']) if case.get('k') is not None else None
     for i, (qu, r) in enumerate(zip(case['queries'], o['queries'])):
+        rp = x['repeat'][i]
+        if ('err' in r) != ('err' in rp) or r.get('err') != rp.get('err') or r.get('ok') != rp.get('ok'):
+            rep.oracle_fail('%s:repeat_differs' % ('effstim:' + qu['unit_name'] if qu['q'] == 'effstim' else 'efflam'),
+                            'the same call on the same observation, asked again after the other calls, gives %s instead of %s' % (
+                                core._short(rp) if hasattr(core, '_short') else rp, core._short(r) if hasattr(core, '_short') else r), case, rp)
         if qu['q'] == 'effstim':
             u = qu['unit_name']
             how = 'explicit' if qu.get('wl') is not None else 'native'
@@ -258,8 +313,13 @@ def oracle(rep, case, out):
                     if abs(r['ok'] - want) > 1e-9 * want:
                         rep.oracle_fail('efflam:definition', 'effective wavelength %r, defining integrals give %r' % (r['ok'], want), case, r)
             lo, hi = x['brange'] if qu['binned'] else x['wrange']
+            nonneg = x['nonneg']
+            if qu.get('wl') is not None:
+                W = wl_angstrom(qu)
+                lo, hi = float(W.min()), float(W.max())
+                nonneg = x['efflam_nonneg'][i].get('ok') is True
             live = (den != 0) if den is not None else (r['ok'] != 0)
-            if x['nonneg'] and live and not (lo * (1 - 1e-9) <= r['ok'] <= hi * (1 + 1e-9)):
+            if nonneg and live and not (lo * (1 - 1e-9) <= r['ok'] <= hi * (1 + 1e-9)):
                 rep.oracle_fail('efflam:outside_range', 'effective wavelength %r outside [%r, %r]' % (r['ok'], lo, hi), case, r)
             if kk is not None and x.get('scaled') and x['scaled'][i] is not None:
                 s = x['scaled'][i]
@@ -328,6 +388,83 @@ def gen_grid(rng, band):
     return qs(g), ('nm' if nm else 'AA_number')
 
 
+def related_grid(rng, vals, kind):
+    """a grid with the same length and the same first / last value as `vals` (Fractions) but other interior points:
+    linear, logarithmic or quadratic spacing, on the dyadic lattice; None if that is not possible"""
+    n = len(vals)
+    if n < 3:
+        return None
+    desc = vals[0] > vals[-1]
+    lo, hi = (vals[-1], vals[0]) if desc else (vals[0], vals[-1])
+    out = [lo]
+    for i in range(1, n - 1):
+        t = i / (n - 1)
+        if kind == 'lin':
+            v = float(lo) + float(hi - lo) * t
+        elif kind == 'log':
+            v = float(lo) * (float(hi) / float(lo)) ** t
+        else:
+            v = float(lo) + float(hi - lo) * t * t
+        out.append(F(round(v * 8), 8))
+    out.append(hi)
+    if any(b <= a for a, b in zip(out, out[1:])):
+        return None
+    if desc:
+        out = out[::-1]
+    return None if out == list(vals) else out
+
+
+def gen_history(rng, c):
+    """1-2 earlier calls on grids related to the ones the measured calls use"""
+    bases = []          # (values, unit)
+    for qu in c['queries']:
+        if qu.get('wl') is not None and (qu['wl'], qu.get('wl_unit')) not in [(qs(b[0]), b[1]) for b in bases]:
+            bases.append(([unq(v) for v in qu['wl']], qu.get('wl_unit') or 'AA_number'))
+    lf = c['band']['leaf']
+    if lf['leaf'] == 'empirical':
+        bases.append((sorted(unq(v) for v in lf['pts']), 'AA_number'))     # the native set of a flat source x this band
+    if not bases:
+        return []
+    hist = []
+    for _ in range(rng.randint(1, 2)):
+        vals, unit = rng.choice(bases)
+        r = rng.random()
+        if r < 0.7:
+            g = None
+            for kind in rng.sample(['lin', 'log', 'quad'], 3):
+                g = related_grid(rng, vals, kind)
+                if g is not None:
+                    break
+            if g is None:
+                g = vals[::-1]
+            gu = unit
+        elif r < 0.85:
+            g, gu = vals[::-1], unit
+        else:
+            g, gu = vals, ('AA_number' if unit == 'nm' else 'nm')       # the same numbers in the other unit
+        wl = qs(g)
+        t = rng.random()
+        if t < 0.3:
+            hist.append({'h': 'effstim', 'unit_name': rng.choice(UNITS), 'wl': wl, 'wl_unit': gu})
+        elif t < 0.45:
+            hist.append({'h': 'efflam', 'erg': rng.random() < 0.7, 'wl': wl, 'wl_unit': gu})
+        elif t < 0.55:
+            hist.append({'h': 'sample_src', 'wl': wl, 'wl_unit': gu})
+        elif t < 0.65:
+            hist.append({'h': 'sample_obs', 'unit_name': rng.choice(['flam', 'fnu', 'photlam']), 'wl': wl, 'wl_unit': gu})
+        elif t < 0.75:
+            hist.append({'h': 'countrate', 'wl': wl, 'wl_unit': gu})
+        else:
+            pts = sorted(v * 10 if gu == 'nm' else v for v in g)
+            vals2 = [O.dy(rng, 0, 1, 4) + F(1, 16) for _ in pts]
+            if rng.random() < 0.5:
+                vals2[0] = vals2[-1] = F(0)
+            band2 = O.fill_ss({'prim': 'bandpass', 'leaf': {'leaf': 'empirical', 'pts': qs(pts), 'vals': qs(vals2), 'keep_neg': True}})
+            hist.append({'h': 'obs2', 'band2': band2, 'what': 'efflam' if rng.random() < 0.3 else 'effstim',
+                         'unit_name': rng.choice(UNITS)})
+    return hist
+
+
 def gen_case(rng, K, nmax):
     src, band = c07.gen_pair(rng)
     if rng.random() < 0.35:
@@ -381,9 +518,17 @@ def gen_case(rng, K, nmax):
         ergs = [True, False] if rng.random() < 0.5 else [rng.random() < 0.7]
         for erg in ergs:
             c['queries'].append({'q': 'efflam', 'binned': binned, 'erg': erg})
+    if rng.random() < 0.4:
+        explicit = [qq for qq in c['queries'] if qq.get('wl') is not None]
+        wl, wu = (explicit[0]['wl'], explicit[0]['wl_unit']) if explicit and rng.random() < 0.7 else gen_grid(rng, band)
+        c['queries'].append({'q': 'efflam', 'binned': False, 'erg': rng.random() < 0.7, 'wl': wl, 'wl_unit': wu})
     # ... and the relation with `source * k`, k = 2^e2, total brightness still within 2^-120 .. 2^60
     if rng.random() < 0.6:
         c['k'] = q(F(2) ** rng.randint(max(-60, -120 - e1), min(60, 60 - e1)))
+    # a short history of earlier calls on the same source / bandpass / observation objects
+    if rng.random() < 0.7:
+        c['history'] = gen_history(rng, c)
+    rng.shuffle(c['queries'])
     return c
 
 
@@ -392,27 +537,36 @@ def mk_constflux_stmag(case):
 
 
 def run(rep):
+    from . import c16
+    c16.fast_unit_errors()
     thorough = rep.tier == 'thorough'
     rng = rep.rng('c09')
     K = O.consts()
     cases = core.load_corpus('C09')
     for c in cases:
         c['const'] = K
-    cases += [gen_case(rng, K, 100 if thorough else 16) for _ in range(15000 if thorough else 900)]
+    cases += [gen_case(rng, K, 100 if thorough else 16) for _ in range(15000 if thorough else 750)]
     rep.rule = ('observations (table / constant-in-every-unit / box / trapezoid sources x table / box bandpasses, several binsets) '
                 'x effstim in FLAM, FNU, Jy, mJy, PHOTLAM, PHOTNU, STmag, ABmag on the native sets and on explicit coarse wavelength '
                 'grids (ascending / descending, Angstrom / nm), VEGAMAG with a Vega spectrum (native / explicit wavelengths) x source '
                 'brightness 2^-120..2^60 (in the source itself, seen by the model, and as source*k) x both default_integrator '
-                'settings; effective wavelength binned/unbinned, efflerg/efflphot at every brightness. Non-trivial: an observation '
-                'was constructed and at least one effective stimulus returned.')
+                'settings; effective wavelength binned/unbinned (native and explicit wavelengths), efflerg/efflphot at every brightness; '
+                'each case is a history on the same source / bandpass / observation objects: 1-2 earlier calls (effstim, effective '
+                'wavelength, sampling, count rate, an observation through a second bandpass) on grids with the same length and end '
+                'points but other spacing, reversed, or the same numbers in nm, then the measured calls in random order, then the '
+                'measured calls again (bit-identical). Non-trivial: an observation was constructed and at least one effective '
+                'stimulus returned.')
 
     def tags(c, o):
         t = ['outcome:' + (o.get('err') or 'ok'), 'integrator:' + c.get('integrator', 'trapezoid'),
-             'brightness:' + ('faint' if c.get('_e1', 0) < -40 else 'bright' if c.get('_e1', 0) > 20 else 'mid')]
+             'brightness:' + ('faint' if c.get('_e1', 0) < -40 else 'bright' if c.get('_e1', 0) > 20 else 'mid'),
+             'history:' + ('+'.join(sorted({h['h'] for h in c.get('history') or []})) or 'none')]
         if 'ok' in o:
             for qu, r in zip(c['queries'], o['ok']['queries']):
                 if qu['q'] == 'effstim':
                     t.append('unit:%s:%s:%s' % (qu['unit_name'], 'explicit' if qu.get('wl') is not None else 'native', r.get('err') or 'ok'))
+                elif qu.get('wl') is not None:
+                    t.append('efflam:explicit:%s' % (r.get('err') or 'ok'))
         return t
 
     def nontrivial(c, o):
